@@ -918,6 +918,25 @@ func (u *Unit) sentinel(name string) Term {
 }
 
 // mergeVals builds ite(c, a, b) over structured values.
+// mergeSlices: the join of two slice values; statically known element lists survive with their guards.
+func (u *Unit) mergeSlices(c Term, a, b Val, t Term, typ types.Type) Val {
+	out := &SliceV{T: t, Typ: typ}
+	ea, ga, ka := u.knownElems(u.curState, a)
+	eb, gb, kb := u.knownElems(u.curState, b)
+	if ka && kb {
+		for i := range ea {
+			out.Elems = append(out.Elems, ea[i])
+			out.Guards = append(out.Guards, And(c, ga[i]))
+		}
+		for i := range eb {
+			out.Elems = append(out.Elems, eb[i])
+			out.Guards = append(out.Guards, And(Not(c), gb[i]))
+		}
+		out.Known = true
+	}
+	return out
+}
+
 func (u *Unit) mergeVals(c Term, a, b Val) Val {
 	if a == nil {
 		return b
@@ -946,7 +965,7 @@ func (u *Unit) mergeVals(c Term, a, b Val) Val {
 			return &Scalar{T: Ite(c, x.T, u.closureID(y)), Typ: x.Typ}
 		}
 		if y, ok := b.(*SliceV); ok {
-			return &SliceV{T: Ite(c, x.T, y.T), Typ: y.Typ}
+			return u.mergeSlices(c, x, y, Ite(c, x.T, y.T), y.Typ)
 		}
 	case *StructV:
 		if y, ok := b.(*StructV); ok && len(x.F) == len(y.F) {
@@ -986,13 +1005,13 @@ func (u *Unit) mergeVals(c Term, a, b Val) Val {
 		}
 	case *SliceV:
 		if y, ok := b.(*SliceV); ok {
-			if x.Cell == y.Cell {
+			if x.Cell == y.Cell && x.Cell != nil {
 				return x
 			}
-			return &SliceV{T: Ite(c, x.T, y.T), Typ: x.Typ}
+			return u.mergeSlices(c, x, y, Ite(c, x.T, y.T), x.Typ)
 		}
 		if y, ok := b.(*Scalar); ok {
-			return &SliceV{T: Ite(c, x.T, y.T), Typ: x.Typ}
+			return u.mergeSlices(c, x, y, Ite(c, x.T, y.T), x.Typ)
 		}
 	}
 	u.note("cannot merge values %T / %T", a, b)
